@@ -18,7 +18,13 @@
 (*     it has been acknowledged, and send an unacknowledged message again with the same id and      *)
 (*     DUP=1: whatever the broker remembers about ids, the message a PUBLISH carries must reach the  *)
 (*     pipeline (by this packet or by an earlier copy the pipeline accepted);                        *)
-(*   - all of this independently of other clients that connect and disconnect meanwhile.             *)
+(*   - all of this independently of other clients that connect and disconnect meanwhile, and of        *)
+(*     other SUBSCRIBED clients: a subscriber that has stopped reading (its queue full, the QoS1        *)
+(*     sends to it blocked) does not keep messages it holds no matching subscription for from their     *)
+(*     subscribers (module MqttFanout: what carries the fan-outs; trace event `indep`);                 *)
+(*   - a subscription is owed its messages also after the session that holds it was resumed            *)
+(*     (MqttTopics!Resume: connection ended or taken over, reconnect with cleanSession=false), each     *)
+(*     filter with the QoS it was subscribed with.                                                       *)
 (* Interpretation (recorded in the report): the code retransmits the *oldest* unacknowledged      *)
 (* message of a session on every tick; the contract's fairness is on "some unacknowledged         *)
 (* message", and conformance demands retransmission of the oldest one only.                        *)
@@ -258,6 +264,10 @@ Redeliver == \A c \in Clients : \A m \in 1..MaxPub : \A k \in 1..2 :
 (* ---------------------------------- universes ---------------------------------- *)
 FAH == <<LA, LH>>   FAB == <<LA, LB>>   FPB == <<LP, LB>>   FAP == <<LA, LP>>
 TAB == <<LA, LB>>   TAC == <<LA, LC>>   TA == <<LA>>
+(* literal filters / topics of the resume universe (one filter per topic, so that the QoS a subscription comes back with  *)
+(* after a resume is not masked by another matching subscription of the same client) and of the stall universe              *)
+FAC == <<LA, LC>>   FA == <<LA>>   FB == <<LB>>   FC == <<LC>>   FBA == <<LB, LA>>   FCA == <<LC, LA>>   FBC == <<LB, LC>>
+TB == <<LB>>   TC == <<LC>>   TBA == <<LB, LA>>   TCA == <<LC, LA>>   TBC == <<LB, LC>>
 (* all tables in which every client holds at most K of the filters F, each with QoS 0 or 1 *)
 Tables(F, K) ==
     LET one(c) == {S \in SUBSET [c : {c}, f : F, q : QoS] : Cardinality(S) <= K /\ \A x, y \in S : x.f = y.f => x = y}
